@@ -291,19 +291,23 @@ theorem C02_l0_spec {lam : ℝ} (hlam : 0 < lam) (v : Fin n → ℝ) :
       simpa [Real.norm_eq_abs, sq_abs] using this)
   exact this.congr_dom setOf_forall_univ
 
-/-- `L0Norm.prox`, complex input: same characterisation with the modulus -/
-theorem C02_l0_complex_partial {lam : ℝ} (hlam : 0 < lam) (v : Fin n → ℝ × ℝ)
-    (h : ∀ i, L0Cond ‖toC (v i)‖ lam) :
-    IsGMin Set.univ (fun x : PiLp 2 (fun _ : Fin n => ℂ) => ∑ i, l0Fn1 (x i)) lam (toCn v) (toCn (l0ProxC v lam)) := by
-  have := min_pi (F := fun _ : Fin n => ℂ) (v := toCn v) (p := toCn (l0ProxC v lam))
-    (D := fun _ => Set.univ) (φ := fun _ => l0Fn1 (E := ℂ))
-    (fun i => by
-      have h1 := (l0_min_iff hlam (toC (v i))).mpr (h i)
-      have e : toCn (l0ProxC v lam) i = if ‖toC (v i)‖ < lam then 0 else toC (v i) := by
-        show toC (l0ProxC1 (v i) lam) = _
-        unfold l0ProxC1; rw [cabs_eq]; split_ifs <;> rfl
-      rw [e]; exact h1)
-  exact this.congr_dom setOf_forall_univC
+/-- `L0Norm.prox`, complex input: the same exact characterisation with the modulus -/
+theorem C02_l0_complex_partial {lam : ℝ} (hlam : 0 < lam) (v : Fin n → ℝ × ℝ) :
+    IsGMin Set.univ (fun x : PiLp 2 (fun _ : Fin n => ℂ) => ∑ i, l0Fn1 (x i)) lam (toCn v) (toCn (l0ProxC v lam))
+      ↔ ∀ i, L0Cond ‖toC (v i)‖ lam := by
+  constructor
+  · intro h i
+    have h' := h.congr_dom (setOf_forall_univC (n := n)).symm
+    have := min_pi_coord (F := fun _ : Fin n => ℂ) h' i
+    rw [toCn_l0ProxC_apply] at this
+    exact (l0_min_iff hlam (toC (v i))).mp this
+  · intro h
+    have := min_pi (F := fun _ : Fin n => ℂ) (v := toCn v) (p := toCn (l0ProxC v lam))
+      (D := fun _ => Set.univ) (φ := fun _ => l0Fn1 (E := ℂ))
+      (fun i => by
+        rw [toCn_l0ProxC_apply]
+        exact (l0_min_iff hlam (toC (v i))).mpr (h i))
+    exact this.congr_dom setOf_forall_univC
 
 /-- `SquaredL2AbsLoss.prox`, real input: global minimiser of `Σ scale·w_i (y_i - |x_i|)²` (`y ≥ 0`, `w ≥ 0`, zeros allowed) -/
 theorem C02_sqL2Abs {lam scale : ℝ} (hlam : 0 < lam) (hs : 0 ≤ scale) (w y v : Fin n → ℝ)
@@ -404,20 +408,14 @@ theorem C02_sqL2SqAbs {lam scale : ℝ} (hlam : 0 < lam) (hs : 0 ≤ scale) (w y
         exact min_zero_weight (v i) _)
   exact this.congr_dom setOf_forall_univ
 
-/-- SPEC: `‖x‖₁ - beta‖x‖₂` -/
-noncomputable def l1l2Fn (beta : ℝ) (x : EuclideanSpace ℝ (Fin n)) : ℝ := ∑ i, |x i| - beta * ‖x‖
+-- SPEC of the L1-L2 functional: `Scico.ProxL1L2.l1l2Fn beta x = ∑ i, |x i| - beta * ‖x‖`
 
-/-- **`L1MinusL2Norm.prox`** (real input, every `beta ≥ 0`): the four-branch formula of the code is a
-    global minimiser of `lam(‖x‖₁ - beta‖x‖₂) + ½‖x-v‖²` for every `v ≠ 0`, and for `v = 0` when `beta ≤ 1`. -/
-theorem C02_l1l2_partial {lam beta : ℝ} (hlam : 0 < lam) (hb : 0 ≤ beta) (v : Fin n → ℝ)
-    (hreg : (∃ i, v i ≠ 0) ∨ beta ≤ 1) :
-    IsGMin Set.univ (l1l2Fn beta) lam (toE v) (toE (l1l2Prox beta v lam)) := l1l2_min hlam hb v hreg
-
-/-- **negation at the excluded corner**: `v = 0`, `beta = 2`, `lam = 1` — the code returns `0`
-    (objective `0`) while `x = e₁` has objective `-½`. -/
-theorem C02_l1l2_zero_not_min :
-    ¬ IsGMin Set.univ (l1l2Fn 2) (1 : ℝ) (toE (fun _ : Fin 1 => (0 : ℝ))) (toE (l1l2Prox 2 (fun _ : Fin 1 => (0 : ℝ)) 1)) :=
-  l1l2_zero_not_min
+/-- **`L1MinusL2Norm.prox`** (real input, EVERY `beta ≥ 0`, EVERY `v`): the formula of the code — the four `where`
+    branches and the `v = 0` case as repaired in cda1690 — is a global minimiser of `lam(‖x‖₁ - beta‖x‖₂) + ½‖x-v‖²`.
+    (Before cda1690 the code returned `0` for `v = 0`, which is not a minimiser when `beta > 1`: `beta = 2`, `lam = 1`
+    gives objective `0` against `-½` at `e₁`.) -/
+theorem C02_l1l2 {lam beta : ℝ} (hlam : 0 < lam) (hb : 0 ≤ beta) (v : Fin n → ℝ) :
+    IsGMin Set.univ (l1l2Fn beta) lam (toE v) (toE (l1l2Prox beta v lam)) := l1l2_min hlam hb v
 
 end Nonconvex
 
@@ -449,9 +447,11 @@ example : CubicRootOK (1 / 4) 1 1 0 2 1 := by
   intro _
   refine ⟨by norm_num, ?_, by norm_num⟩
   simp [depCubicP, depCubicQ, noNanDiv_eq]; norm_num
--- the regime hypothesis of C02_l1l2_partial: any non-zero v, or beta ≤ 1
-example : (∃ i : Fin 2, (fun i : Fin 2 => if i = 0 then (3 : ℝ) else 0) i ≠ 0) ∨ (2 : ℝ) ≤ 1 :=
-  Or.inl ⟨0, by simp⟩
+-- C02_l1l2 at a concrete point of the one-sparse branch: v = (1, 1/2), lam = 1, beta = 1 gives (1, 0)
+example : l1l2Fn 1 (toE (fun i : Fin 2 => if i = 0 then (1 : ℝ) else 0)) = 0 := by
+  unfold l1l2Fn
+  have h := norm_onesparse (n := 2) 0 (1 : ℝ)
+  rw [h]; simp
 
 end Examples
 
